@@ -1134,6 +1134,7 @@ pub fn check_case(case: &Case, rec: &mut Rec) -> CaseResult {
     rec.set_nontrivial(any_xf && st.simple_ge3_points > 0);
     rec.class(if any_xf { "glyf:transform-0" } else if b.groups.is_empty() { "glyf:none(CFF)" } else { "glyf:null-transform" });
     rec.class_if(st.bbox_elided > 0, "bbox:elided");
+    rec.class_if(st.overlap_bitmaps > 0, "glyf:overlapSimpleBitmap");
     rec.class_if(st.bbox_explicit_diff > 0, "bbox:explicit-different");
     rec.class_if(st.bbox_explicit_equal > 0, "bbox:explicit-equal");
     rec.class_if(st.composites > 0 && any_xf, "glyph:composite-transformed");
